@@ -10,12 +10,20 @@ Proved:
 * `fix_trimesh_orientation`: the edge-propagation sweep of `get_inwards_mask` (seed test as a parameter) makes every
   orientable mesh consistently oriented, for every face order, every set of initially flipped faces and every answer
   of the seed tests; the orientability hypothesis is shown necessary.
-/- FULL: also check_selfintersecting and "consistent => all faces outwards" (the seed's ray test and the inside test
-   are float geometry with absolute tolerances): permutation / flip / derived-mesh oracle on the real class. -/
+* the seed's ray test `is_facet_inwards` and the inside test `mask_inside_trimesh` (ported in Model/TrimeshInside.lean, tied
+  bit-for-bit by the `trimesh-inside` stream) do not depend on where the mesh is placed (translation invariance) nor on
+  the order of the faces (`mask_inside_trimesh`).
+* for a single tetrahedron with outward faces every observer strictly inside is found inside by `mask_inside_trimesh`,
+  unless its test ray comes within the pass-through tolerance of an edge — and that exception is real.
+/- FULL: also check_selfintersecting and "consistent => all faces outwards" (needs: the ray test equals the geometric
+   inside predicate of a closed non-self-intersecting surface away from its faces — not shown; permutation / flip /
+   derived-mesh oracle on the real class). -/
 -/
 import MagpyVerif.Model.Mesh
 import MagpyVerif.Lemmas.MeshConn
 import MagpyVerif.Lemmas.MeshOrient
+import MagpyVerif.Lemmas.TrimeshInside
+import MagpyVerif.Lemmas.TrimeshTetra
 namespace MagpyVerif.C16
 open MagpyVerif.Mesh
 
@@ -320,5 +328,79 @@ example : inwardsMask (fun idx => idx.length == 4) [(0, 1, 2), (0, 1, 3), (0, 2,
     = [false, true, false, true, true, false, true, false] := by decide
 -- on the projective plane the returned flips are not consistent
 example : conflict rp2 (inwardsMask (fun _ => false) rp2) = true := by decide
+
+/-! ### the ray test behind the seed verdict and the inside/outside decision -/
+
+/-- C16 / C02 (`mask_inside_trimesh`): shifting every vertex of the mesh and the observer by the same vector `d` does
+not change the inside/outside verdict — for every list of faces and every observer.  The bounding box, the mesh size
+and the start point of the test ray move with the mesh, and after the division by the mesh size the ray test only uses
+differences of positions (facet edges, observer minus reference vertex, vertices minus ray start). -/
+theorem mask_inside_trimesh_translation_invariant (d : V3 ℝ) (faces : List (Kern.Tri ℝ)) (x : V3 ℝ) :
+    Kern.maskInsideTrimesh (faces.map (Kern.triShift d)) (x + d) = Kern.maskInsideTrimesh faces x :=
+  Kern.maskInsideTrimesh_shift d faces x
+
+/-- C16 (`is_facet_inwards`, the seed of `get_inwards_mask`): the inwards/outwards verdict of a facet does not depend
+on where the mesh is placed. -/
+theorem is_facet_inwards_translation_invariant (d : V3 ℝ) (face : Kern.Tri ℝ) (faces : List (Kern.Tri ℝ)) :
+    Kern.isFacetInwards (Kern.triShift d face) (faces.map (Kern.triShift d)) = Kern.isFacetInwards face faces :=
+  Kern.isFacetInwards_shift d face faces
+
+/-- C16 (`mask_inside_trimesh`): the inside/outside verdict does not depend on the order in which the faces are listed —
+for every list of faces, closed or not, and every observer (bounding box, mesh size and ray start are order-free
+reductions; the ray test counts crossings and asks for any touch). -/
+theorem mask_inside_trimesh_face_order_invariant {f1 f2 : List (Kern.Tri ℝ)} (hp : f1.Perm f2) (x : V3 ℝ) :
+    Kern.maskInsideTrimesh f1 x = Kern.maskInsideTrimesh f2 x :=
+  Kern.maskInsideTrimesh_perm hp x
+
+-- non-vacuity: the unit tetrahedron moved by (5, −3, 2); the observer (1/4,1/4,1/4) + (5,−3,2) is found inside
+example : Kern.maskInsideTrimesh (Kern.unitTetra.map (Kern.triShift ⟨5, -3, 2⟩))
+    ((⟨1 / 4, 1 / 4, 1 / 4⟩ : V3 ℝ) + ⟨5, -3, 2⟩) = true := by
+  rw [mask_inside_trimesh_translation_invariant]; exact Kern.unitTetra_quarter_inside
+-- … and with the faces listed in reverse order
+example : Kern.maskInsideTrimesh Kern.unitTetra.reverse ⟨1 / 4, 1 / 4, 1 / 4⟩ = true := by
+  rw [mask_inside_trimesh_face_order_invariant (List.reverse_perm _)]; exact Kern.unitTetra_quarter_inside
+
+/-- C16 / C02, `…_partial` (TriangularMesh made of ONE tetrahedron with outward faces, `v0 v1 v2 v3` right-handed): every
+observer strictly inside (all four barycentric coordinates positive — the Tetrahedron class's `point_inside` then says
+inside as well) is found INSIDE by `mask_inside_trimesh`, provided its test ray does not come within the pass-through
+tolerance of an edge (`RayGeneric`: none of the three signed volumes per face, in mesh-size units, is below `1e-12` in
+absolute value — the code's own `pass_through_boundary` is false for every face).  Proof: the observer passes the
+bounding-box pre-filter; the start point lies outside the box, so one of its barycentric coordinates is negative; in
+barycentric terms face `k` counts as crossed iff `σ_k/λ_k` (start over observer) is non-positive and the strict minimum
+of the four ratios, which holds for exactly one `k`: the parity is odd.
+/- FULL: `maskInsideTrimesh = tetraInside` away from the faces.  Missing: observers outside (even number of crossings and
+   no touch).  The hypothesis `RayGeneric` cannot be dropped: `ray_through_edge_is_not_generic` /
+   C02.`trimesh_ray_test_misses_interior_point`. -/ -/
+theorem tetra_interior_found_by_ray_test_partial (v0 v1 v2 v3 x : V3 ℝ) (hd : 0 < Kern.tdet v0 v1 v2 v3)
+    (hx : ∀ k, 0 < Kern.bary v0 v1 v2 v3 x k) (hgen : Kern.RayGeneric (Kern.tetraFaces v0 v1 v2 v3) x) :
+    Kern.maskInsideTrimesh (Kern.tetraFaces v0 v1 v2 v3) x = true ∧ Kern.tetraInside v0 v1 v2 v3 x = true :=
+  ⟨Kern.maskInsideTrimesh_tetra_inside v0 v1 v2 v3 x hd hx hgen, Kern.tetraInside_of_bary_pos v0 v1 v2 v3 x hd hx⟩
+
+-- non-vacuity: the unit tetrahedron and the observer (1/4, 1/4, 1/4) meet all three hypotheses
+example : 0 < Kern.tdet (⟨0, 0, 0⟩ : V3 ℝ) ⟨1, 0, 0⟩ ⟨0, 1, 0⟩ ⟨0, 0, 1⟩ ∧
+    (∀ k, 0 < Kern.bary (⟨0, 0, 0⟩ : V3 ℝ) ⟨1, 0, 0⟩ ⟨0, 1, 0⟩ ⟨0, 0, 1⟩ ⟨1 / 4, 1 / 4, 1 / 4⟩ k) ∧
+    Kern.RayGeneric (Kern.tetraFaces (⟨0, 0, 0⟩ : V3 ℝ) ⟨1, 0, 0⟩ ⟨0, 1, 0⟩ ⟨0, 0, 1⟩) ⟨1 / 4, 1 / 4, 1 / 4⟩ := by
+  refine ⟨by simp [Kern.tdet, Kern.det3], ?_, Kern.unitTetra_quarter_generic⟩
+  intro k
+  fin_cases k <;> (simp [Kern.bary, Kern.tdet, Kern.det3]; try norm_num)
+
+/-- the genericity hypothesis of `tetra_interior_found_by_ray_test_partial` is necessary: the observer
+(0.120012345, 0.059923456, 0.574932109) is strictly inside the unit tetrahedron, its test ray passes through the edge
+(0,0,0)–(0,0,1), and `mask_inside_trimesh` answers "outside" (reproduced on the real code) -/
+theorem ray_through_edge_is_not_generic :
+    (∀ k, 0 < Kern.bary (⟨0, 0, 0⟩ : V3 ℝ) ⟨1, 0, 0⟩ ⟨0, 1, 0⟩ ⟨0, 0, 1⟩
+      ⟨120012345 / 1000000000, 59923456 / 1000000000, 574932109 / 1000000000⟩ k) ∧
+    ¬ Kern.RayGeneric Kern.unitTetra ⟨120012345 / 1000000000, 59923456 / 1000000000, 574932109 / 1000000000⟩ ∧
+    Kern.maskInsideTrimesh Kern.unitTetra ⟨120012345 / 1000000000, 59923456 / 1000000000, 574932109 / 1000000000⟩ = false := by
+  have hb : ∀ k, 0 < Kern.bary (⟨0, 0, 0⟩ : V3 ℝ) ⟨1, 0, 0⟩ ⟨0, 1, 0⟩ ⟨0, 0, 1⟩
+      ⟨120012345 / 1000000000, 59923456 / 1000000000, 574932109 / 1000000000⟩ k := by
+    intro k
+    fin_cases k <;> (simp [Kern.bary, Kern.tdet, Kern.det3]; try norm_num)
+  refine ⟨hb, ?_, Kern.unitTetra_edge_ray_outside⟩
+  intro hgen
+  have h := (tetra_interior_found_by_ray_test_partial _ _ _ _ _ (by simp [Kern.tdet, Kern.det3]) hb
+    (Kern.unitTetra_eq ▸ hgen)).1
+  rw [← Kern.unitTetra_eq, Kern.unitTetra_edge_ray_outside] at h
+  exact Bool.false_ne_true h
 
 end MagpyVerif.C16
